@@ -352,9 +352,16 @@ def conformance(spec, acc):
         server.close()
         return status, got, ticks[0], elapsed
     try:
-        status, got, ticks, elapsed = asyncio.run(asyncio.wait_for(one(), 30))
+        from ..vloop import real_loop_guard
+        with real_loop_guard(60):
+            status, got, ticks, elapsed = asyncio.run(asyncio.wait_for(one(), 30))
     except Exception as e:  # noqa: BLE001
         acc.note(f"conformance {kind}/{fault} over real TCP could not be completed: {type(e).__name__}: {e}")
+        return
+    except BaseException as e:  # noqa: BLE001
+        if type(e).__name__ != "StepStalled":
+            raise
+        acc.inconclusive_because("simulator: loop-step-stalled (conformance run on a real event loop and socket: a callback did not return)")
         return
     acc.count("conformance_runs")
     acc.case(None)
